@@ -1,11 +1,14 @@
 (* Driver.v — single entry point [run_line] evaluated by the extracted OCaml
    driver and, on a slice of every correspondence run, by vm_compute in Coq. *)
-From RK Require Import Base Proto DrvC13.
+From RK Require Import Base Proto DrvC13 DrvC12.
 
 Definition run_line (l : bytes) : bytes :=
   match fields l with
   | kind :: args =>
       if beq kind (s2b "pfx") then run_pfx args
+      else if beq kind (s2b "res") then run_res args
+      else if beq kind (s2b "p5") then run_p5 args
+      else if beq kind (s2b "rds") then run_rds args
       else s2b "!kind"
   | [] => s2b "!empty"
   end.
